@@ -44,9 +44,13 @@ pub fn gen_case(t: &mut Tape, core_only: bool) -> E2Case {
         roles[0] = Role::Mapped { d: if named { sname(0) } else { "0".into() }, from: ExprT::Id, into: ExprT::Id };
     }
     let mapped: Vec<usize> = (0..nf).filter(|i| matches!(roles[*i], Role::Mapped { .. })).collect();
+    // optional bare #[parent] member (named structs): its type P / PF maps itself; one of its members is also written by
+    // the struct itself, so the order "own assignments, then the nested value" is observable in every Into-like flavour
+    let bare_parent = named && t.chance(1, 3);
+    let overlap: Option<String> = if bare_parent { mapped.first().and_then(|i| if let Role::Mapped { d, .. } = &roles[*i] { Some(d.clone()) } else { None }) } else { None };
     // D-only members
-    let n_ghosts = t.weighted(&[4, 2, 1]);
-    let n_unmentioned = if named { t.weighted(&[3, 2, 1]) } else { 0 };
+    let n_ghosts = if bare_parent { 0 } else { t.weighted(&[4, 2, 1]) };
+    let n_unmentioned = if named && !bare_parent { t.weighted(&[3, 2, 1]) } else { 0 };
     let mut d_members: Vec<(String, Option<usize>, Option<i64>)> = vec![]; // (name, from S field, ghosts const)
     for i in &mapped {
         if let Role::Mapped { d, .. } = &roles[*i] {
@@ -59,6 +63,10 @@ pub fn gen_case(t: &mut Tape, core_only: bool) -> E2Case {
     }
     for u in 0..n_unmentioned {
         d_members.push((format!("u{}", u), None, None));
+    }
+    if bare_parent {
+        d_members.push(("pu".to_string(), None, None));
+        labels.push("bare-parent".into());
     }
     if n_ghosts > 0 {
         labels.push("ghosts".into());
@@ -128,6 +136,10 @@ pub fn gen_case(t: &mut Tape, core_only: bool) -> E2Case {
             plain_fields.push_str("pub i64, ");
         }
     }
+    if bare_parent {
+        s_fields.push_str("#[parent] pub p: P, ");
+        sf_fields.push_str("#[parent] pub p: PF, ");
+    }
     let (o, c) = if named { ("{ ", " }") } else { ("(", ");") };
     let derive_s = format!("{}pub struct S {}{}{}", s_type_attrs, o, s_fields, c);
     let derive_sf = format!("{}pub struct SF {}{}{}", sf_type_attrs, o, sf_fields, c);
@@ -135,9 +147,18 @@ pub fn gen_case(t: &mut Tape, core_only: bool) -> E2Case {
     // ---- harness -------------------------------------------------------------------------------
     let mut h = String::new();
     h.push_str("#[derive(Debug, Clone, PartialEq)] pub struct E(pub i64);\n");
-    let _ = write!(h, "#[derive(Debug, Clone, PartialEq)] pub struct S {}{}{}\n#[derive(Debug, Clone, PartialEq)] pub struct SF {}{}{}\n", o, plain_fields, c, o, plain_fields, c);
+    let (pf_s, pf_sf) = if bare_parent { ("pub p: P, ", "pub p: PF, ") } else { ("", "") };
+    let _ = write!(h, "#[derive(Debug, Clone, PartialEq)] pub struct S {}{}{}{}\n#[derive(Debug, Clone, PartialEq)] pub struct SF {}{}{}{}\n", o, plain_fields, pf_s, c, o, plain_fields, pf_sf, c);
+    let mut extra_derives: Vec<String> = vec![];
+    if bare_parent {
+        let ov = overlap.clone().unwrap_or_else(|| "pu".to_string());
+        let body = if ov == "pu" { "pub pu: i64, ".to_string() } else { format!("pub {}: i64, pub pu: i64, ", ov) };
+        let _ = write!(h, "#[allow(unused_imports)] use o2o::traits::{{IntoExisting, TryIntoExisting}};\n#[derive(Debug, Clone, PartialEq)] pub struct P {{ {} }}\n#[derive(Debug, Clone, PartialEq)] pub struct PF {{ {} }}\n", body, body);
+        extra_derives.push(format!("#[from_ref(D)]\n#[into_existing(D)]\npub struct P {{ {} }}", body));
+        extra_derives.push(format!("#[try_from_ref(D, E)]\n#[try_into_existing(D, E)]\npub struct PF {{ {} }}", body));
+    }
     if named {
-        let _ = write!(h, "#[derive(Debug, Clone, PartialEq)] pub struct D {{ {} }}\n", d_members.iter().map(|m| format!("pub {}: i64,", m.0)).collect::<Vec<_>>().join(" "));
+        let _ = write!(h, "#[derive(Debug, Clone, PartialEq, Default)] pub struct D {{ {} }}\n", d_members.iter().map(|m| format!("pub {}: i64,", m.0)).collect::<Vec<_>>().join(" "));
     } else {
         let _ = write!(h, "#[derive(Debug, Clone, PartialEq)] pub struct D({});\n", d_members.iter().map(|_| "pub i64,").collect::<Vec<_>>().join(" "));
     }
@@ -149,13 +170,23 @@ pub fn gen_case(t: &mut Tape, core_only: bool) -> E2Case {
     let v1 = dv(false, t);
     let v2 = dv(true, t);
     let _ = write!(h, "pub fn mk_d(trigger: bool) -> D {{ if trigger {{ {} }} else {{ {} }} }}\n", d_lit(&v2), d_lit(&v1));
-    let s_lit = |ty: &str, vals: &[String]| if named { format!("{} {{ {} }}", ty, (0..nf).map(|i| format!("{}: {}", sname(i), vals[i])).collect::<Vec<_>>().join(", ")) } else { format!("{}({})", ty, vals.iter().map(|v| format!("{},", v)).collect::<Vec<_>>().join(" ")) };
+    let parent_lit = |ty: &str| -> String {
+        if !bare_parent {
+            return String::new();
+        }
+        let pty = if ty == "S" { "P" } else { "PF" };
+        match &overlap {
+            Some(ov) if ov != "pu" => format!(", p: {} {{ {}: 4242, pu: 4343 }}", pty, ov),
+            _ => format!(", p: {} {{ pu: 4343 }}", pty),
+        }
+    };
+    let s_lit = |ty: &str, vals: &[String]| if named { format!("{} {{ {}{} }}", ty, (0..nf).map(|i| format!("{}: {}", sname(i), vals[i])).collect::<Vec<_>>().join(", "), parent_lit(ty)) } else { format!("{}({})", ty, vals.iter().map(|v| format!("{},", v)).collect::<Vec<_>>().join(" ")) };
     let sv = |trigger: bool, t: &mut Tape| -> Vec<String> { (0..nf).map(|i| if trigger && trig == Some(i) { "777".to_string() } else { format!("{}", 1000 + 37 * i as i64 + t.below(20) as i64) }).collect() };
     let (s1, s2) = (sv(false, t), sv(true, t));
     let _ = write!(h, "pub fn mk_s(trigger: bool) -> S {{ if trigger {{ {} }} else {{ {} }} }}\n", s_lit("S", &s2), s_lit("S", &s1));
     let _ = write!(h, "pub fn mk_sf(trigger: bool) -> SF {{ if trigger {{ {} }} else {{ {} }} }}\n", s_lit("SF", &s2), s_lit("SF", &s1));
-    let tup = |v: &str| format!("({})", (0..nf).map(|i| format!("{}.{},", v, sname(i))).collect::<Vec<_>>().join(" "));
-    let tup_ty = format!("({})", (0..nf).map(|_| "i64,").collect::<Vec<_>>().join(" "));
+    let tup = |v: &str| format!("({}{})", (0..nf).map(|i| format!("{}.{},", v, sname(i))).collect::<Vec<_>>().join(" "), if bare_parent { format!(" {}.p.pu,", v) } else { String::new() });
+    let tup_ty = format!("({}{})", (0..nf).map(|_| "i64,").collect::<Vec<_>>().join(" "), if bare_parent { " i64," } else { "" });
     let _ = write!(h, "pub fn s_tuple(v: &S) -> {} {{ {} }}\npub fn sf_tuple(v: &SF) -> {} {{ {} }}\n", tup_ty, tup("v"), tup_ty, tup("v"));
 
     // ---- run: pairwise agreement ---------------------------------------------------------------
@@ -198,5 +229,8 @@ pub fn gen_case(t: &mut Tape, core_only: bool) -> E2Case {
     r.push_str("}\n");
     let nontrivial = mapped.len() >= 2 && (n_unmentioned > 0 || trig.is_some());
     let key = format!("{}\n{}", derive_s, derive_sf);
-    E2Case { harness_src: h, derives: vec![derive_s, derive_sf], run_src: r, key, labels, nontrivial, facts: vec![] }
+    let mut derives = vec![derive_s, derive_sf];
+    derives.extend(extra_derives);
+    let nontrivial = nontrivial || (bare_parent && overlap.is_some());
+    E2Case { harness_src: h, derives, run_src: r, key, labels, nontrivial, facts: vec![] }
 }
